@@ -4,8 +4,9 @@
 -/
 import Ladybug.DrvCore
 import Ladybug.Model.Plot
+import Ladybug.Model.PlotObj
 
-open Drv Plot
+open Drv Plot PlotObj
 
 namespace DrvC17
 
@@ -41,21 +42,12 @@ def showLists (ls : List (List String)) : String :=
 
 def showBar (b : Bar) : String := joinSp [showRat b.x, showRat b.y0, showRat b.w, showRat b.y1]
 
-structure Group where
-  cum : Bool
-  minV : Rat
-  maxV : Rat
-  datas : List (List Rat)
+abbrev Group := BGroup
 
 def pGroup : P Group := do
   let cum ← pBool; let mn ← pRat; let mx ← pRat
   let datas ← pList (pList pRat)
   pure ⟨cum, mn, mx, datas⟩
-
-/-- Thread `bar_count` through the data-type groups. -/
-def runGroups (f : Group → Nat → List (List Bar) × Nat) : Nat → List Group → List (List Bar)
-  | _, [] => []
-  | bc, g :: gs => let r := f g bc; r.1 ++ runGroups f r.2 gs
 
 def opHp : P String := do
   let cont ← pBool; let rev ← pBool; let ap ← pAP
@@ -129,6 +121,102 @@ def opPsych : P String := do
   let fs := psyFaces minT maxT hours
   pure (s!"ok {fs.length} " ++ joinSp (fs.map fun f => s!"{f.1} {f.2.1} {f.2.2}"))
 
+/-! ### Object histories (round 3): one response token group per step, separated by `;` -/
+
+def showOErr : OErr → String
+  | .assert => "err:assert"
+  | .type => "err:type"
+  | .zero => "err:zero"
+  | .value => "err:value"
+  | .index => "err:index"
+
+def pWOp : P WOp := do
+  let t ← tok
+  match t with
+  | "fh" => do let v ← pInt; pure (.setFreqHours v)
+  | "fic" => do let v ← pInt; pure (.setIntervals v)
+  | "zeros" => do let b ← pBool; pure (.setShowZeros b)
+  | "freq" => do let b ← pBool; pure (.setShowFreq b)
+  | "other" => do let b ← pBool; pure (.setOther b)
+  | "badtype" => pure .setBadType
+  | "rhist" => pure .readHist
+  | "rzero" => pure .readZero
+  | "rprev" => pure .readPrev
+  | "rmax" => pure .readRealMax
+  | "rmesh" => pure .readIntervalsMesh
+  | "rfmax" => pure .readFreqMax
+  | "rstatic" => pure .readStaticPrev
+  | _ => failure
+
+def showWOut : WOut → String
+  | .unit => "ok"
+  | .err e => showOErr e
+  | .hist h => "hist " ++ showLists (h.map (·.map showRat))
+  | .nat k => s!"nat {k}"
+  | .dirs d => "dirs " ++ joinSp (d.map showRat)
+
+def opWhist : P String := do
+  let n ← pNat; let isSpeed ← pBool
+  let samples ← pList (do let d ← pRat; let v ← pRat; pure (d, v))
+  let ops ← pList pWOp
+  pEnd
+  match WObj.fresh { n := n, isSpeed := isSpeed, samples := samples } with
+  | .error e => pure (showOErr e)
+  | .ok o => pure ("ok ; " ++ " ; ".intercalate ((o.run ops).2.map showWOut))
+
+def pMOp : P MOp := do
+  let t ← tok
+  match t with
+  | "min" => do let v ← pRat; let i ← pInt; pure (.setMin v i)
+  | "max" => do let v ← pRat; let i ← pInt; pure (.setMax v i)
+  | "read" => pure .readMeshes
+  | _ => failure
+
+def showMOut : MOut → String
+  | .unit => "ok"
+  | .err e => showOErr e
+  | .bars b => "bars " ++ showLists (b.map (·.map showBar))
+
+def opBhist : P String := do
+  let (bx, by', xd, yd, st) ← pCfgHead
+  let nBars ← pNat
+  let isDaily ← pBool
+  let daily ← if isDaily then (do let sd ← pNat; let dpm ← pList pNat; pure (some (⟨sd, dpm⟩ : DailyCfg)))
+    else pure none
+  let groups ← pList pGroup
+  let ops ← pList pMOp
+  pEnd
+  let o : MObj := ⟨bx, by', xd, yd, st, nBars, daily, groups⟩
+  pure ("ok ; " ++ " ; ".intercalate ((o.run ops).2.map showMOut))
+
+def pPOp : P POp := do
+  let t ← tok
+  match t with
+  | "matrix" => pure .readMatrix
+  | "hours" => pure .readHourValues
+  | "mesh" => pure .readMesh
+  | "legend" => pure .setLegend
+  | "data" => do let v ← pList pRat; pure (.dataMesh v)
+  | _ => failure
+
+def showFaces (f : List (Nat × Nat)) : String := joinSp (f.map fun c => s!"{c.1} {c.2}")
+
+def showPOut : POut → String
+  | .unit => "ok"
+  | .err e => showOErr e
+  | .nats l => "nats " ++ showNats l
+  | .faces f => "faces " ++ showFaces f
+  | .means f m => "means " ++ showFaces f ++ " # " ++ joinSp (m.map showRat)
+
+def opPhist : P String := do
+  let minT ← pInt; let maxT ← pInt
+  let hours ← pList (do let t ← pRat; let rh ← pRat; pure (t, rh))
+  let ops ← pList pPOp
+  pEnd
+  match PObj.fresh ⟨minT, maxT, hours⟩ with
+  | .error e => pure (showOErr e)
+  | .ok o => pure ("ok ; " ++ " ; ".intercalate ((o.run ops).2.map showPOut))
+
 def run (p : P String) (toks : List String) : String :=
   match p toks with
   | some (s, _) => s
@@ -144,6 +232,9 @@ def handle (toks : List String) : String :=
   | "mbars" :: r => run opMbars r
   | "dbars" :: r => run opDbars r
   | "psych" :: r => run opPsych r
+  | "whist" :: r => run opWhist r
+  | "bhist" :: r => run opBhist r
+  | "phist" :: r => run opPhist r
   | _ => "bad-op"
 
 end DrvC17
